@@ -90,3 +90,17 @@ Theorem C10_refuted :
   reexports_exactly true DMac 6 [x00; x1b; x44; x11; x3a; xb7] = false.
 Proof. repeat split; vm_compute; reflexivity. Qed.
 Print Assumptions C10_refuted.
+
+(* ---- buffer level (imports kept local) ---- *)
+From NF Require Import RunFacts RoundtripFacts.
+
+(* THE ROUND TRIP over a whole buffer: whatever parse_bytes reports for a buffer -- any mix of
+   V5, V7, V9 and IPFIX packets, any state, any allowed set -- if every reported element is of the
+   lossless kind (V5/V7 always; V9: v9_lossless; IPFIX: ix_lossless for the caches the message
+   met; no error element), then the concatenation of the elements' to_be_bytes is exactly the
+   prefix of the buffer they occupied: buffer = that concatenation ++ the unconsumed rest. *)
+Theorem C10_buffer_roundtrip : forall puf allow s x r,
+  parse_bytes puf allow s x = Some r -> lossless_run s r = true ->
+  exists pre rest, x = pre ++ rest /\ export_run r = XOk pre /\ length pre = total_wire (map fst r).
+Proof. intros puf allow s x r. unfold parse_bytes. apply run_reexport. Qed.
+Print Assumptions C10_buffer_roundtrip.
